@@ -116,6 +116,7 @@ THEOREMS = [
     "OllamaVerif.C06.canResume_sound",
     "OllamaVerif.C06.canResume_sound_on_contract",
     "OllamaVerif.C06.approved_resume_sees_complete_window",
+    "OllamaVerif.C06.approved_resume_on_contract",
     "OllamaVerif.C06.mem_abs_remove_inf",
     "OllamaVerif.C06.nodupPos_runT",
     "OllamaVerif.C06.nodupPos_specStepT",
